@@ -32,6 +32,22 @@ from semantiva.configurations.load_pipeline_from_yaml import load_pipeline_from_
 from semantiva.registry.bootstrap import RegistryProfile, apply_profile
 
 
+def _publish_failure(
+    transport: SemantivaTransport, job_id: str, exc: BaseException, logger: Logger
+) -> None:
+    """Report a failed job on its status channel so the master can fail the Future."""
+    try:
+        transport.publish(
+            f"jobs.{job_id}.status",
+            data=None,
+            context=ContextType({"job_id": job_id}),
+            metadata={"status": "failed", "error": f"{type(exc).__name__}: {exc}"},
+            require_ack=False,
+        )
+    except Exception as pub_exc:
+        logger.error(f"Could not report failure of job {job_id}: {pub_exc}")
+
+
 def worker_loop(
     worker_id: int,
     transport: SemantivaTransport,
@@ -114,6 +130,7 @@ def worker_loop(
                             worker_logger.error(
                                 f"Failed to load pipeline YAML for job {job_id} from '{pcfg}': {e}"
                             )
+                            _publish_failure(transport, job_id, e, worker_logger)
                             try:
                                 msg.ack()
                             except Exception:
@@ -124,6 +141,12 @@ def worker_loop(
                     ):
                         worker_logger.error(
                             f"Invalid pipeline configuration received for job {job_id}: {pcfg}"
+                        )
+                        _publish_failure(
+                            transport,
+                            job_id,
+                            TypeError(f"Invalid pipeline configuration: {type(pcfg)}"),
+                            worker_logger,
                         )
                         msg.ack()  # acknowledge to remove the message if applicable
                         continue  # skip processing this message
@@ -168,6 +191,7 @@ def worker_loop(
                 except Exception as e:
                     # Log any error during processing without crashing the loop
                     worker_logger.exception(f"Worker failed job {job_id}: {e}")
+                    _publish_failure(transport, job_id, e, worker_logger)
 
             # Close this subscription before the next polling iteration
             sub.close()
